@@ -1,13 +1,11 @@
 SPECIFICATION Spec
 CONSTANTS
-  Procs <- P3
-  Dev <- DevNever
-  Scenarios <- ScnAllQ
+  Procs <- P2
+  Dev <- DevSkip
+  Scenarios <- ScnBoot3
 INVARIANT NoFailure
 INVARIANT SerialResults
 INVARIANT StoreUnchanged
 INVARIANT NoDeadlock
-INVARIANT WalAtWork
 INVARIANT TxnLockAgree
-INVARIANT NoIdleTransaction
 CHECK_DEADLOCK FALSE
